@@ -218,6 +218,19 @@ func runRL(x *X) {
 		x.Probe("expiry-pattern")
 	}
 
+	// Biased closing pattern: a client that uses only part of its burst, idles for a few refill
+	// periods and then bursts: what it had left and what the idle time earned are capped together.
+	if max >= 2 && c.Intn(3, "partial-idle-burst") == 0 && !x.dead {
+		client := names[c.Intn(nClients, "partial-client")]
+		k := 1 + c.Intn(max-1, "partial-k")
+		m := 2 + c.Intn(4, "partial-idle-periods")
+		x.Do("pattern", func() {
+			runScript(client, []rlOp{{kind: "sleep", d: time.Duration(max+1) * refill}, {kind: "allow", n: k},
+				{kind: "sleep", d: time.Duration(m)*refill + time.Millisecond}, {kind: "allow", n: max + 2}}, false)
+		}, onErr)
+		x.Probe("partial-idle-burst")
+	}
+
 	// Biased closing pattern: a client that has been away long enough for its bucket to be
 	// dropped comes back at the very instant of a cleanup tick -- its requests interleave with the
 	// sweep that is deciding about its bucket. (Only the limiter under test is asked: a tie
